@@ -35,7 +35,7 @@ def parseLog (s : String) : Option (List LogEntry) :=
 
 /-- implementation result: none = err -/
 def parseRes (s : String) : Option (Option Pin) :=
-  if s == "err" then some none
+  if s == "err" || s == "panic" then some none
   else if s.startsWith "ok:" then (parsePin (s.drop 3).toString).map some
   else none
 
@@ -77,6 +77,7 @@ def answer (ws : List String) : String :=
   match parseCase ws with
   | none => "bad-case parse"
   | some k =>
+    if ws.contains "panic" then "propfail call_panicked arm=" ++ opName k.op else
     if !k.pre.wf then "bad-case pre-not-sorted" else
     -- the allocation the implementation chose: that of the stored entry for the op's cid
     let chosen := match opCid k.cfg k.op with
